@@ -98,6 +98,17 @@ def wit(x, name, sorts):
     return cache[name]
 
 
+def callee_wit(x, callee, name, sorts):
+    """Witness `name` that the contract of `callee` (short name, e.g. 'Node._search') introduced at the most recent call
+    on this path; a fresh symbol when this clause is itself only *used* (no path) or no such call happened."""
+    p = getattr(x, "p", None)
+    if p is not None:
+        w = p.ghost.get("callee_wits", {}).get(callee, {})
+        if name in w:
+            return w[name]
+    return wit(x, name, sorts)
+
+
 def unchanged_lists(x):
     """no pre-existing list object changed (content frame for pure functions that allocate)."""
     l = L.fresh("l", L.LRef)
